@@ -174,24 +174,36 @@ def r4_finite(ctx):
               f"constants.INFINITY folds to {val}: not a finite prohibitive float", construct="INFINITY")
     f = ix.func(DIST, "AbstractWeibullRightCensoredFamily.compute_log_likelihood_hazard", "C08.R4")
     src = U(f.node)
+
+    def rep_time_var(fn):
+        for st in statements(fn.node):
+            if isinstance(st, ast.Assign) and isinstance(st.targets[0], ast.Tuple) and isinstance(st.value, ast.Call) and U(st.value.func).endswith("_extract_reparametrized_parameters"):
+                return U(st.targets[0].elts[0])
+        return None
+    T = rep_time_var(f)
+    if T is None:
+        raise AnalysisError("C08.R4", "anchor vanished: the reparametrised event time in compute_log_likelihood_hazard")
     # every torch.log / fractional power applied to a value derived from the reparametrised event time sits on the guarded side of a where(. > 0, ...)
     ok = True
     why = ""
+    wheres = [w for w in ast.walk(f.node) if isinstance(w, ast.Call) and U(w.func) == "torch.where" and len(w.args) == 3]
     for c in ast.walk(f.node):
         if isinstance(c, ast.Call) and U(c.func) == "torch.log":
-            guarded = any(isinstance(w, ast.Call) and U(w.func) == "torch.where" and len(w.args) == 3 and any(x is c for x in ast.walk(w.args[1])) and U(w.args[0]).endswith("> 0")
-                          and U(c.args[0]) in U(w.args[0]) for w in ast.walk(f.node))
+            guarded = any(any(x is c for x in ast.walk(w.args[1])) and U(w.args[0]) == f"{U(c.args[0])} > 0" for w in wheres)
             if not guarded:
                 ok, why = False, f"`{U(c)}` is not on the guarded side of where(. > 0, ...)"
-        if isinstance(c, ast.BinOp) and isinstance(c.op, ast.Pow) and "event_reparametrized_time" in U(c.left):
-            guarded = any(isinstance(w, ast.Call) and U(w.func) == "torch.where" and len(w.args) == 3 and any(x is c for x in ast.walk(w.args[1])) and U(w.args[0]) == "event_reparametrized_time > 0"
-                          for w in ast.walk(f.node))
+        if isinstance(c, ast.BinOp) and isinstance(c.op, ast.Pow) and T in {n.id for n in ast.walk(c.left) if isinstance(n, ast.Name)}:
+            guarded = any(any(x is c for x in ast.walk(w.args[1])) and U(w.args[0]) == f"{T} > 0" for w in wheres)
             if not guarded:
                 ok, why = False, f"`{U(c)[:60]}` (fractional power of x - tau) is not guarded by where(x - tau > 0, ...)"
     ctx.check(ok, "C08.R4", f, f.node, "log and fractional power only see positive reparametrised times", why + ": an event before the reference time gives NaN instead of a finite penalty", construct="guarded log / power")
     ctx.check("-constants.INFINITY" in src, "C08.R4", f, f.node, "event before the reference time: finite prohibitive penalty", "no finite penalty for an event before the reference time", construct="penalty value")
     g = ix.func(DIST, "AbstractWeibullRightCensoredFamily.compute_log_survival", "C08.R4")
-    ctx.check("torch.clamp(event_reparametrized_time, min=0.0)" in U(g.node), "C08.R4", g, g.node, "survival evaluated on the clamped time", "survival raises a negative number to a fractional power (NaN)", construct="clamped survival")
+    Tg = rep_time_var(g)
+    clamps = [c for c in ast.walk(g.node) if isinstance(c, ast.Call) and U(c.func) == "torch.clamp" and c.args and U(c.args[0]) == Tg and (U(kwarg(c, "min")) in ("0.0", "0") if kwarg(c, "min") is not None else False)]
+    raw_pow = [c for c in ast.walk(g.node) if isinstance(c, ast.BinOp) and isinstance(c.op, ast.Pow) and Tg in {n.id for n in ast.walk(c.left) if isinstance(n, ast.Name)}
+               and not any(isinstance(x, ast.Call) and U(x.func) == "torch.clamp" for x in ast.walk(c.left))]
+    ctx.check(bool(clamps) and not raw_pow, "C08.R4", g, g.node, "survival evaluated on the clamped time", "survival raises a negative number to a fractional power (NaN)", construct="clamped survival")
 
 
 def rules(ctx):
@@ -215,4 +227,6 @@ VARIANTS = [
     V("infinite-penalty", "src/leaspy/constants.py", "    INFINITY = float(10**307)", "    INFINITY = float(\"inf\")", "C08.R4"),
     V("inf-literal", D, "            -constants.INFINITY,\n", "            -float(\"inf\"),\n", "C08.R4"),
     V("silent-normal-rewritten", D, "                0.5 * ((x.value - loc) / scale) ** 2\n", "                (x.value - loc) * (x.value - loc) / (2 * scale * scale)\n", None),
+    V("silent-rename-rep-time", D, "event_reparametrized_time", "t_rep", None, count=11),
+    V("silent-rename-nu-rep", D, "nu_reparametrized", "nu_tilde", None, count=11),
 ]
